@@ -17,13 +17,31 @@ def sh(cmd, cwd=None, env=None, timeout=None, input=None):
     return p.returncode, p.stdout
 
 
+def go_mod_args():
+    """`go build` arguments that point the harness module at the tree under test.  The committed go.mod
+    replaces the libvore modules by /repo/...; for a scratch copy of the repository (VERIF_REPO=<dir>, used
+    only to try seeded changes without touching /repo) an alternative module file is written next to the
+    binaries."""
+    if REPO == "/repo":
+        return []
+    os.makedirs(BIN, exist_ok=True)
+    alt = os.path.join(BIN, "go.alt.mod")
+    src = open(os.path.join(VERIF, "harness", "go.mod")).read()
+    with open(alt, "w") as f:
+        f.write(src.replace("=> /repo/", "=> " + REPO.rstrip("/") + "/"))
+    gs = os.path.join(VERIF, "harness", "go.sum")
+    if os.path.exists(gs):
+        shutil.copy(gs, os.path.join(BIN, "go.alt.sum"))
+    return ["-modfile=" + alt]
+
+
 def build_harness(log):
     """rebuild the Go harness against /repo's current working tree (hooks on)"""
     os.makedirs(BIN, exist_ok=True)
     out = os.path.join(BIN, "vharness")
     if os.path.exists(out):
         os.remove(out)
-    rc, o = sh(["go", "build", "-tags", "verif", "-o", out, "./cmd/vharness"],
+    rc, o = sh(["go", "build"] + go_mod_args() + ["-tags", "verif", "-o", out, "./cmd/vharness"],
                cwd=os.path.join(VERIF, "harness"), env=GOENV, timeout=600)
     log.append({"step": "go build -tags verif harness", "rc": rc, "out": o[-2000:]})
     return rc == 0, o
